@@ -131,7 +131,7 @@ class Objective:
                 v = np.zeros(len(Xf))
             elif self.kind == "neg":
                 v = -Xf.sum(axis=1)
-            elif self.kind == "first":
+            elif self.kind in ("first", "view"):
                 v = Xf[:, 0].copy()
             elif self.kind == "weighted":
                 w = (np.arange(Xf.shape[1]) % 5 - 2).astype(np.float64)
@@ -143,6 +143,11 @@ class Objective:
         return v * self.scale + self.offset
 
     def __call__(self, X, **kw):
+        if self.kind == "view" and isinstance(X, np.ndarray) and X.dtype == np.float64 and X.ndim == 2 and self.scale == 1.0 and self.offset == 0.0:
+            # an admissible objective may return a VIEW of the array it was given (f(X) = X[:, 0])
+            v = X[:, 0]
+            self.batches.append((snap(X), v.copy()))
+            return v
         v = self.value(X)
         self.batches.append((snap(np.asarray(X)), v.copy()))
         return v
